@@ -5,6 +5,7 @@
 package vrt
 
 import (
+	"time"
 	"encoding/json"
 	"fmt"
 	"net/url"
@@ -143,3 +144,33 @@ func Run(h func()) (skipped bool, panicked interface{}) {
 	h()
 	return
 }
+
+// Time / Float64: opaque values. Natively they are drawn from a fixed pool of
+// boundary values indexed by the model's token (mod pool size).
+var timePool = []time.Time{
+	time.Date(2020, 2, 29, 23, 59, 59, 999999999, time.UTC),
+	time.Date(1999, 12, 31, 0, 0, 0, 0, time.FixedZone("x", 3600*5+1800)),
+	time.Date(2038, 1, 19, 3, 14, 8, 1, time.UTC),
+	time.Date(1, 1, 1, 0, 0, 0, 0, time.UTC),
+	time.Date(2024, 6, 1, 12, 0, 0, 500000000, time.FixedZone("y", -3600*8)),
+}
+
+func Time(name string) time.Time {
+	n := num(name)
+	if n < 0 {
+		n = -n
+	}
+	return timePool[int(n%int64(len(timePool)))]
+}
+
+var floatPool = []float64{0, 1.5, -2.25, 1e39, 3.4028234663852886e38, 1.401298464324817e-45, 5e-324, 1.7976931348623157e308, 0.1, 123456789.125, -1e-7, 16777217}
+
+func Float64(name string) float64 {
+	n := num(name)
+	if n < 0 {
+		n = -n
+	}
+	return floatPool[int(n%int64(len(floatPool)))]
+}
+
+func Float32(name string) float32 { return float32(Float64(name)) }
